@@ -14,6 +14,7 @@ import (
 	"reflect"
 	"sort"
 	"strconv"
+	"sync"
 
 	"verifharness/fw"
 	"verifharness/oracle"
@@ -284,6 +285,88 @@ func c07HashPass(args []string) {
 	}
 }
 
+// c07ConcurrentPass: run by the parent in fresh processes (plain build, and the race build in the thorough tier): batches
+// of cases are first snapped one after the other, then by several goroutines at the same time; a repetition that runs while
+// other calls are in flight must return the same geometry as one that runs alone. Mismatches go to the output file, one JSON
+// object per line.
+func c07ConcurrentPass(args []string) {
+	log.SetOutput(io.Discard)
+	seed, _ := strconv.ParseInt(args[0], 10, 64)
+	n, _ := strconv.ParseInt(args[1], 10, 64)
+	w, _ := strconv.ParseInt(args[2], 10, 64)
+	W, _ := strconv.ParseInt(args[3], 10, 64)
+	stride, _ := strconv.ParseInt(args[4], 10, 64)
+	out, err := os.Create(args[5])
+	if err != nil {
+		os.Exit(4)
+	}
+	defer out.Close()
+	type item struct {
+		idx int64
+		sc  *SnapCase
+		ref uint64
+	}
+	var mu sync.Mutex
+	calls, batches := 0, 0
+	report := func(m map[string]any) {
+		mu.Lock()
+		b, _ := json.Marshal(m)
+		out.Write(append(b, '\n'))
+		mu.Unlock()
+	}
+	const K, G = 6, 6
+	var batch []item
+	flush := func() {
+		if len(batch) == 0 {
+			return
+		}
+		batches++
+		var wg sync.WaitGroup
+		for g := 0; g < G; g++ {
+			wg.Add(1)
+			go func(g int) {
+				defer wg.Done()
+				for round := 0; round < 2; round++ {
+					for k := range batch {
+						it := batch[(k+g)%len(batch)]
+						r, pan := callSnap(it.sc, it.sc.IDs, it.sc.GeomPolygon(), it.sc.Reverse)
+						mu.Lock()
+						calls++
+						mu.Unlock()
+						if pan != nil {
+							report(map[string]any{"idx": it.idx, "panic": fmt.Sprint(pan)})
+						} else if h := hashResult(r); h != it.ref {
+							report(map[string]any{"idx": it.idx, "alone": fmt.Sprintf("%x", it.ref), "concurrent": fmt.Sprintf("%x", h)})
+						}
+					}
+				}
+			}(g)
+		}
+		wg.Wait()
+		batch = batch[:0]
+	}
+	for idx := int64(0); idx < n; idx++ {
+		if idx%W != w || (idx/W)%stride != 0 {
+			continue
+		}
+		rng := fw.CaseRng(seed, "C07", "", idx)
+		sc, _ := genSnapCase(rng, prC07)
+		if sc == nil || sc.Kind == "huge" || sc.Kind == "zipper" {
+			continue
+		}
+		r, pan := callSnap(sc, sc.IDs, sc.GeomPolygon(), sc.Reverse)
+		if pan != nil {
+			continue
+		}
+		batch = append(batch, item{idx, sc, hashResult(r)})
+		if len(batch) == K {
+			flush()
+		}
+	}
+	flush()
+	report(map[string]any{"summary": true, "concurrent_calls": calls, "batches": batches, "goroutines": G})
+}
+
 func readHashes(path string, into map[int64]uint64) {
 	b, err := os.ReadFile(path)
 	if err != nil {
@@ -291,6 +374,76 @@ func readHashes(path string, into map[int64]uint64) {
 	}
 	for i := 0; i+16 <= len(b); i += 16 {
 		into[int64(binary.LittleEndian.Uint64(b[i:]))] = binary.LittleEndian.Uint64(b[i+8:])
+	}
+}
+
+// concurrentPass runs c07-concurrent in W fresh processes of the given binary and merges what they report.
+func concurrentPass(p *fw.ParentCtx, n int64, bin, label string, stride int) {
+	const W = 8
+	var cmds []*exec.Cmd
+	for w := 0; w < W; w++ {
+		out := filepath.Join(p.Tmp, fmt.Sprintf("c07conc_%s_%d.jsonl", label, w))
+		cmd := exec.Command("timeout", "-s", "QUIT", "3600", bin, "c07-concurrent", strconv.FormatInt(p.Seed, 10), strconv.FormatInt(n, 10), strconv.Itoa(w), strconv.Itoa(W), strconv.Itoa(stride), out)
+		cmd.Env = append(os.Environ(), "GORACE=halt_on_error=0 log_path="+filepath.Join(p.Tmp, "race_c07_"+label))
+		_ = cmd.Start()
+		cmds = append(cmds, cmd)
+	}
+	calls, mism := 0, 0
+	for w, cmd := range cmds {
+		err := cmd.Wait()
+		f, ferr := os.Open(filepath.Join(p.Tmp, fmt.Sprintf("c07conc_%s_%d.jsonl", label, w)))
+		if ferr != nil {
+			p.Inconclusive = append(p.Inconclusive, fmt.Sprintf("concurrent pass (%s) %d: no output (%v)", label, w, err))
+			continue
+		}
+		sawSummary := false
+		dec := json.NewDecoder(f)
+		for {
+			var m map[string]any
+			if dec.Decode(&m) != nil {
+				break
+			}
+			if m["summary"] == true {
+				sawSummary = true
+				calls += int(m["concurrent_calls"].(float64))
+				continue
+			}
+			mism++
+			if mism <= 3 {
+				idx := int64(m["idx"].(float64))
+				rng := fw.CaseRng(p.Seed, "C07", "", idx)
+				sc, _ := genSnapCase(rng, prC07)
+				msg := fmt.Sprintf("case %d: result hash %v when snapped alone, %v when the same call runs while other SnapPolygon calls are in flight (6 goroutines)", idx, m["alone"], m["concurrent"])
+				if m["panic"] != nil {
+					msg = fmt.Sprintf("case %d: returns normally when snapped alone, panics (%v) when the same call runs while other SnapPolygon calls are in flight (6 goroutines)", idx, m["panic"])
+				}
+				p.Merged.ViolCount["concurrent-repetition-differs"]++
+				p.Merged.Violations = append(p.Merged.Violations, fw.Violation{Property: "C07", Class: "concurrent-repetition-differs", Msg: msg, Case: sc.JSON(), CaseIdx: idx})
+			} else {
+				p.Merged.ViolCount["concurrent-repetition-differs"]++
+			}
+		}
+		f.Close()
+		if !sawSummary {
+			p.Inconclusive = append(p.Inconclusive, fmt.Sprintf("concurrent pass (%s) %d did not finish (%v)", label, w, err))
+		}
+	}
+	p.Extra["concurrent_calls_compared_"+label+"_build"] = calls
+	p.Extra["concurrent_mismatches_"+label+"_build"] = mism
+	if calls == 0 {
+		p.Inconclusive = append(p.Inconclusive, "no concurrent repetitions compared ("+label+" build)")
+	}
+	if label == "race" {
+		total, texel := raceReports(p.Tmp)
+		p.Extra["race_reports_total"] = total
+		p.Extra["race_reports_with_texel_frame_deduplicated"] = len(texel)
+		for i, blk := range texel {
+			if i >= 3 {
+				break
+			}
+			p.Merged.ViolCount["data-race-between-concurrent-calls"]++
+			p.Merged.Violations = append(p.Merged.Violations, fw.Violation{Property: "C07", Class: "data-race-between-concurrent-calls", Msg: "two SnapPolygon calls running at the same time race on shared memory (race detector report with a texel frame):\n" + tailStr(blk, 2500), Case: json.RawMessage(`{"note":"race report; re-run the check to reproduce (schedule dependent)"}`)})
+		}
 	}
 }
 
@@ -358,6 +511,11 @@ func init() {
 					}
 				}
 			}
+			// concurrent repetitions: plain build always; the race build too when the check script provides it (thorough)
+			concurrentPass(p, n, p.Self, "plain", 16)
+			if rb := os.Getenv("VERIF_VCHECK_RACE"); rb != "" {
+				concurrentPass(p, n, rb, "race", 64)
+			}
 			p.Extra["fresh_process_passes"] = passes
 			p.Extra["fresh_process_results_compared"] = compared
 			p.Extra["fresh_process_mismatches"] = mismatches
@@ -365,7 +523,7 @@ func init() {
 				p.Inconclusive = append(p.Inconclusive, "no results compared across processes")
 			}
 		},
-		Rule: "every case: the call repeated 3 more times in-process (deep equality of the whole map), the id list reversed, and the result hash recomputed in 3 further passes of fresh processes; valid polygons additionally: every subset of rings given reversed (all subsets up to 3 rings; equality up to each ring's start vertex), and reverse-winding toggled (every ring with >= 3 vertices exactly reversed up to start vertex, shorter rings equal or reversed, nothing else changed); non-trivial = result with >= 2 polygons or a hole at some matrix",
+		Rule: "every case: the call repeated 3 more times in-process (deep equality of the whole map), the id list reversed, and the result hash recomputed in 3 further passes of fresh processes; a 1/16 sample of the cases is repeated while other SnapPolygon calls are in flight (batches of 6 cases, 6 goroutines x 2 rounds, in fresh processes; thorough: also a 1/64 sample under the race detector) and must return what the call returns alone; valid polygons additionally: every subset of rings given reversed (all subsets up to 3 rings; equality up to each ring's start vertex), and reverse-winding toggled (every ring with >= 3 vertices exactly reversed up to start vertex, shorter rings equal or reversed, nothing else changed); non-trivial = result with >= 2 polygons or a hole at some matrix",
 		Required: func(string) []string {
 			return []string{"calls:repetition", "calls:ids_permuted", "calls:ring_direction", "calls:reverse_winding", "result_with_several_polygons_or_holes", "valid_input"}
 		},
